@@ -867,6 +867,26 @@ def run(ctx):
         ctx.count("call:fn=fma")
         check_call_clause(ctx, fm, m, out, None)
 
+    # directed: a tie at p bits that is broken only beyond 2p bits — x*y + z with x = 2^-p (1 + 2^-(p-1)), y = 1 -+ 2^-(p-1),
+    # z = 1 + 2^-(p-1): the exact sum is z + 2^-p -+ 2^-(3p-2), so any working precision below 3p-2 bits rounds the wrong way
+    # (round-half-even at the intermediate precision).  Every way of reaching 3p bits is used: multiplier alone, extra_prec
+    # alone, BOTH together (each too small on its own).
+    for fmt in FMTS:
+        fm = fms[fmt]
+        pb = fm.p
+        enc = lambda e, frac, neg=False: ((e + fm.bias) << (pb - 1)) + frac + (fm.signbit if neg else 0)
+        for (mn_, md_, ex_) in [(2, 1, 2), (0, 1, 2 * pb + 2), (1, 1, pb + 2), (5, 2, 0), (1, 2, 2 * pb), (3, 2, pb), (1, 1, pb), (1, 4, 2 * pb)]:
+            for ysign in (False, True):
+                for neg in (False, True):
+                    yb = enc(-1, (1 << (pb - 1)) - 2) if not ysign else enc(0, 1)
+                    bs = [enc(-pb, 1, neg), yb, enc(0, 1, neg)]
+                    for kwf in ("F", "N"):
+                        out, _seen = real.call(fmt, kwf, mn_, md_, ex_, "fma", bs)
+                        m = dict(fmt=fmt, kw=kwf, mn=mn_, md=md_, ex=ex_, fn="fma", args=bs, cl=("fma",), arr=False)
+                        ctx.case(key=("fma-tie", fmt, tuple(bs), mn_, md_, ex_), nontrivial=True)
+                        ctx.count("call:fn=fma:tie-beyond-2p")
+                        check_call_clause(ctx, fm, m, out, None)
+
     # nothing else to do for broken Lean obligations: the model is hand-written, so a Lean failure is a
     # checker regression, not a change in /repo; the clauses above were all evaluated on the real code.
     _ = broken
